@@ -36,6 +36,7 @@ def tree(draw):
                          unique=True))
     files = {}
     pels = []
+    named = []
     for i, e in enumerate(eids):
         p = draw(D.dir_pel(e, selectable=draw(st.booleans()) or None, plid=0x50000001))
         pels.append(p)
@@ -50,6 +51,7 @@ def tree(draw):
         name = {'bmc': '%016d_%08X' % (1718273645091827 + i, e), 'plain': 'pel%02d' % i,
                 'ext': 'log_%08X.pel' % e}[style]
         files[name] = M.encode(p)
+        named.append((name, e))
     target = draw(st.one_of(st.sampled_from(eids) if eids else st.just(0x50000001), st.just(0x50000001),
                             st.just(eids[0]) if eids else st.just(0x50000001),
                             st.just(eids[0]) if eids else st.just(0x50000001)))
@@ -84,7 +86,14 @@ def tree(draw):
     for k in range(0 if nested_only else draw(st.integers(0, 2))):
         files[draw(st.sampled_from(['.hidden_%s', '.%s.pel', '[x]_%s', 'st*r_%s', 'q?_%s'])) % tid] = \
             draw(st.one_of(random_bytes, st.just(b'')))
-    return {'files': files, 'target': target, 'n_pels': n,
+    # files that already sit in the --json output directory next to the names the run will write
+    # (<pel file>.<entry id>.json + a suffix): scratch, backup and editor copies of somebody else
+    neighbours = []
+    if named and draw(st.integers(0, 2)) == 0:
+        for name, e in draw(st.lists(st.sampled_from(named), min_size=1, max_size=3, unique=True)):
+            neighbours.append('%s.%08X.json%s' % (name, e, draw(st.sampled_from(['.tmp', '.bak', '~', '.part', '.new',
+                                                                                  '.tmp', '.1']))))
+    return {'files': files, 'target': target, 'n_pels': n, 'neighbours': neighbours,
             'dirname': draw(st.sampled_from(['logs', 'logs', 'logs[1]', 'lo*gs', 'log?', '.logs', 'lo gs'])),
             # how the directory is spelled on the command line
             'spelling': draw(st.sampled_from(['plain', 'plain', 'trailing-slash', 'dot', 'dotdot', 'relative',
@@ -210,6 +219,12 @@ def tree_snapshots(case, note):
                       'outside': outside, 'none': None, 'missing': os.path.join(top, 'does-not-exist')}[c['out']]
             if outdir is not None:
                 argv += ['-o', outdir]
+            nb_dir = outdir if outdir is not None else d
+            if os.path.isdir(nb_dir) and t.get('neighbours'):
+                for nb in t['neighbours']:
+                    with open(os.path.join(nb_dir, nb), 'wb') as fh:
+                        fh.write(b'not yours: ' + nb.encode())
+                note.label('neighbour files in the output directory')
             if c['ext']:
                 argv += ['-e', c['ext']]
             if c.get('clean'):
